@@ -125,7 +125,19 @@ def make_classes(ctl):
             if children:
                 self.children = children
 
-    return {"mixin": NM, "node": ND, "anynode": AN, "symlink": SL, "light": LT, "eqmixin": EQ}
+    class LTEQ(LT):
+        __slots__ = ()
+
+        def __eq__(self, other):
+            return isinstance(other, LTEQ)
+
+        def __ne__(self, other):
+            return not isinstance(other, LTEQ)
+
+        def __hash__(self):
+            return 3
+
+    return {"mixin": NM, "node": ND, "anynode": AN, "symlink": SL, "light": LT, "eqmixin": EQ, "lighteq": LTEQ}
 
 
 class NotANode(object):
